@@ -5,10 +5,11 @@ from shapes import *
 
 def shapes(tier):
     b = CrlShape()
-    out = [b, replace(b, revoked=(0,)), replace(b, revoked=(2,)), replace(b, revoked=(1,)), replace(b, revoked=(0,), invalidity=1),
-           replace(b, revoked=(3,), invalidity=1), replace(b, revoked=(1,), invalidity=1), replace(b, idp=1), replace(b, idp=2, idp_uris=2), replace(b, idp=3),
-           replace(b, revoked=(2, 0), invalidity=2, idp=2, issuer_ku=4, number_len=3, number_b0=0x80, serial_len=3, serial_b0=0xff),
-           replace(b, kid_len=4, revoked=(5,))]
+    out = [b, replace(b, revoked=(0,), invalidity=1), replace(b, revoked=(1,), invalidity=1), replace(b, revoked=(3,)), replace(b, idp=1),
+           replace(b, idp=2, idp_uris=2), replace(b, idp=3, kid_len=4),
+           replace(b, revoked=(2, 0), invalidity=2, idp=2, issuer_ku=4, number_len=3, number_b0=0x80, serial_len=3, serial_b0=0xff)]
+    if tier == "thorough":
+        out += [replace(b, revoked=(0,)), replace(b, revoked=(2,)), replace(b, revoked=(1,)), replace(b, revoked=(3,), invalidity=1), replace(b, kid_len=4, revoked=(5,))]
     if tier == "thorough":
         for r in range(4, 11):
             out.append(replace(b, revoked=(r,)))
@@ -43,7 +44,7 @@ def spec(tier, seed):
     rels = ["same day", "nextUpdate one day later", "nextUpdate one day earlier", "both in 2050 (GeneralizedTime form), one day apart"]
     for rel, what in enumerate(rels):
         for n_ku in (0, 1, 2):
-            if tier == "quick" and not (rel == 0 or (rel, n_ku) in ((1, 1), (2, 0), (3, 2))):
+            if tier == "quick" and (rel, n_ku) not in ((0, 0), (0, 2), (1, 1), (2, 0), (3, 1)):
                 continue
             qs.append(Query(name=f"c08_guards_{rel}_{n_ku}", body=f"    crl::guards({rel}, {n_ku});", unwind=40, family="crl_guards", stubs=S1,
                             functions=CRL_FUNCS, timeout=1200,
